@@ -47,7 +47,7 @@ def setup(ctx):
 
 def workload(ctx):
     rng = ctx.rng(1)
-    for i in range(ctx.n(250, 3500)):
+    for i in range(ctx.n(250, 10000)):
         c, cs = gen.cell(rng, gen.CELL_STRATA[i % len(gen.CELL_STRATA)])
         U, rs, _ = gen.rotation(rng, gen.ROT_STRATA[(i // 7) % len(gen.ROT_STRATA)])
         yield "numeric", {"cell": c, "U": U.tolist(), "eps": [float(x) for x in rng.uniform(-0.1, 0.1, 6)],
@@ -57,12 +57,12 @@ def workload(ctx):
                           "scale": float(10 ** rng.uniform(-2, 2)), "rod": [float(x) for x in rng.normal(size=3) * 10 ** rng.uniform(-3, 1)],
                           "lam": float(rng.uniform(0.05, 0.4)), "yx": [float(x) for x in rng.normal(size=2) * 10 ** rng.uniform(-10, 1, 2)]}
     sets = hkl.settings()
-    for i in range(ctx.n(60, 900)):
+    for i in range(ctx.n(60, 3000)):
         no, cc = sets[int(rng.integers(len(sets)))] if i >= 237 or ctx.tier == "quick" else sets[i % len(sets)]
         if ctx.tier == "quick":
             no, cc = sets[(i * 4 + ctx.seed) % len(sets)]
         yield "hkl", {"no": no, "cc": cc, "s": int(rng.integers(0, 2 ** 31)), "target": int(rng.integers(20, 150))}
-    for i in range(ctx.n(40, 400)):
+    for i in range(ctx.n(40, 1500)):
         sc = [int(x) for x in rng.choice([0, 0, 0, 2, 3, 4, 6], 26)]
         yield "sysabs", {"syscond": sc, "hkls": [gen.hkl(rng, 6) for _ in range(8)] + [[0, 0, int(rng.integers(1, 7))], [2, 2, 0], [1, -1, 3], [0, 3, 0]]}
 
